@@ -81,9 +81,11 @@ static void run_case(int code, const char * text, size_t tl, int has_text, int p
 #endif
     tr_reset();
     if (has_text) {
-        char * t = (char *) malloc(tl + 1);               /* exact size */
-        memcpy(t, text, tl); t[tl] = 0;
-        SCPI_ErrorPushEx(&T.ctx, (int16_t) code, t, tl);
+        /* exact size; with an explicit length the source need not be terminated (the parser itself passes a
+         * pointer into the input buffer for -113) */
+        char * t = (char *) malloc(tl ? tl : 1);
+        if (tl) { memcpy(t, text, tl); SCPI_ErrorPushEx(&T.ctx, (int16_t) code, t, tl); }
+        else { t[0] = 0; SCPI_ErrorPushEx(&T.ctx, (int16_t) code, t, 0); }
         free(t);
     } else SCPI_ErrorPush(&T.ctx, (int16_t) code);
     before = (int) SCPI_ErrorCount(&T.ctx);
@@ -192,8 +194,8 @@ int main(int argc, char ** argv) {
                                 codes[(tail - 1) & 7] = -350; tl[(tail - 1) & 7] = -1;
                                 continue;
                             }
-                            for (j = 0; j < l; j++) texts[tail & 7][j] = (char) ('A' + (tail % 20)); texts[tail & 7][1] = '"'; texts[tail & 7][l] = 0; tl[tail & 7] = l; codes[tail & 7] = -222;
-                            SCPI_ErrorPushEx(&T2.ctx, -222, texts[tail & 7], (size_t) l);
+                            for (j = 0; j < l; j++) texts[tail & 7][j] = (char) ('A' + (tail % 20)); texts[tail & 7][1] = '"'; texts[tail & 7][l - 2] = '"'; texts[tail & 7][l] = 0; tl[tail & 7] = l; codes[tail & 7] = -222;
+                            { char * src = (char *) malloc((size_t) l); memcpy(src, texts[tail & 7], (size_t) l); SCPI_ErrorPushEx(&T2.ctx, -222, src, (size_t) l); free(src); }
                             tail++;
                         } else {
                             const char * why;
